@@ -532,6 +532,7 @@ func (e *Exec) builtin(f *frame, in ssa.Instruction, b *ssa.Builtin, args []Val,
 		st := d.Typ.Underlying().(*types.Slice)
 		comp := e.elemComp(st.Elem())
 		h = h.clone()
+		e.noteWrite(comp, "(sl_base "+d.T+")")
 		h.m[comp] = store(e.hget(h, comp), "(sl_base "+d.T+")", e.s.freshConst("cp", e.s.arrSort(e.s.sortOf(st.Elem()))))
 		return e.resultVal("copy", rt), h, g
 	case "delete":
@@ -540,6 +541,7 @@ func (e *Exec) builtin(f *frame, in ssa.Instruction, b *ssa.Builtin, args []Val,
 		dc, _ := e.mapComps(mt)
 		e.guardObl(f, m.Guard, h, g, in, true)
 		h = h.clone()
+		e.noteWrite(dc, m.T)
 		h.m[dc] = store(e.hget(h, dc), m.T, store(sel(e.hget(h, dc), m.T), k.T, "false"))
 		return Val{Typ: rt}, h, g
 	case "panic":
